@@ -328,10 +328,16 @@ def judge(root, before, after, named, mounts, extra_allowed_dirs=()):
 
 
 def reported_failed(stderr_text, arg):
-    """does stderr contain a "cannot trash <description> '<arg>'" diagnostic?"""
+    """does stderr contain a "cannot trash <description> '<arg>'" diagnostic?
+    stderr uses the backslashreplace error handler: a name that is not valid
+    UTF-8 is shown with \\udcXX escapes"""
     import re
-    pat = r"cannot trash (?:'\.\.?' )?(?:[a-z]+ ){1,3}'" + re.escape(arg) + r"'"
-    return re.search(pat, stderr_text) is not None
+    forms = set([arg, arg.encode('utf-8', 'backslashreplace').decode('utf-8')])
+    for a in forms:
+        pat = r"cannot trash (?:'\.\.?' )?(?:[a-z]+ ){1,3}'" + re.escape(a) + r"'"
+        if re.search(pat, stderr_text) is not None:
+            return True
+    return False
 
 
 def candidate_skeleton(env, uid, mounts):
